@@ -416,6 +416,10 @@ func trieGapsAtDepth[K kad.Key[K], D any](t *trie.Trie[bitstr.Key, D], depth int
 					siblingPrefixes := SiblingPrefixes(k)[depth+1:]
 					sortBitstrKeysByOrder(siblingPrefixes, order)
 					for _, siblingPrefix := range siblingPrefixes {
+						if !IsBitstrPrefix(target, siblingPrefix) && !IsBitstrPrefix(siblingPrefix, target) {
+							// Sibling of the leaf lies outside of target, not a gap of target.
+							continue
+						}
 						gaps = append(gaps, siblingPrefix[depth:])
 					}
 				}
